@@ -20,7 +20,10 @@ NCpu == IF "VERIF_NCPU" \in DOMAIN IOEnv THEN atoi(IOEnv.VERIF_NCPU) ELSE 16
 Quick == Tier = "quick"
 
 PolyTab == << [cls |-> "random", j |-> 1], [cls |-> "small", j |-> 2], [cls |-> "zero", j |-> 0], [cls |-> "max", j |-> 0],
-              [cls |-> "unit", j |-> 255], [cls |-> "const", j |-> 3], [cls |-> "x255", j |-> 0], [cls |-> "sparse", j |-> 4] >>
+              [cls |-> "unit", j |-> 255], [cls |-> "const", j |-> 3], [cls |-> "x255", j |-> 0], [cls |-> "sparse", j |-> 4],
+              \* an all-zero half of the (folded) vector in IPA round 7-j: entries only where bit j of the index is set / clear
+              [cls |-> "bithi", j |-> 7], [cls |-> "bithi", j |-> 0], [cls |-> "bitlo", j |-> 3] >>
+HalfPolys == {[cls |-> c, j |-> j] : c \in {"bithi", "bitlo"}, j \in 0 .. 7}
 Reps == <<"norm", "proj", "flip", "projflip">>
 
 (* small explicit shapes *)
@@ -97,7 +100,7 @@ MpProgs == [k \in 1 .. Len(MpSeq) |->
 Points == {"0", "1", "127", "128", "254", "255", "256", "257", "300", "65536", "2^64", "h", "r-2", "r-1", "rnd1", "rnd2"}
 ResultsFor(pt) == IF ~Quick \/ pt \in {"255", "256"} THEN <<"correct", "+1", "-1", "0", "f255", "f0", "rnd">> ELSE <<"correct", "+1", "f255", "rnd">>
 IpaProgs == {[kind |-> "ipa", label |-> "p", poly |-> pl, point |-> pt, results |-> ResultsFor(pt)] :
-               pl \in (IF Quick THEN {PolyTab[1], PolyTab[7]} ELSE {PolyTab[i] : i \in 1 .. Len(PolyTab)}),
+               pl \in (IF Quick THEN {PolyTab[1], PolyTab[7]} ELSE {PolyTab[i] : i \in 1 .. Len(PolyTab)} \cup HalfPolys),
                pt \in (IF Part = "ipa_few" THEN {"0", "255", "256", "r-1", "rnd1"} ELSE Points)}
 
 ByteCl == {"valid", "short1", "short32", "empty", "trail1", "trail32", "scalar_r", "scalar_r+1", "scalar_r-1", "scalar_max",
@@ -110,8 +113,11 @@ ReadProgs == {[kind |-> "read", src |-> s, bytes |-> b, reader |-> r, pos |-> p]
                      s \in {"mp", "ipa"}, b \in {"valid", "trail1"}, r \in {"err@0", "err@1", "err@31", "err@32", "err@33", "err@543", "err@544", "err@545", "err@575", "err@576", "err@577"}}
 WriteProgs == {[kind |-> "write", src |-> s, fault |-> f] : s \in {"mp", "ipa"}, f \in 0 .. 19}
 
+(* structured polynomials (unit vector, zero halves) at a few points: cheap for the reference, they have few non-zero terms *)
+IpaHalfProgs == {[kind |-> "ipa", label |-> "p", poly |-> pl, point |-> pt, results |-> <<"correct", "+1">>] :
+                   pl \in (IF Quick THEN {PolyTab[5], PolyTab[9], PolyTab[10], PolyTab[11]} ELSE {}), pt \in {"3", "255", "256", "rnd1"}}
 Progs == IF Part \in {"mp_honest", "mp_cpu", "mp_perturb", "mp_arrival"} THEN MpProgs
-         ELSE IF Part \in {"ipa", "ipa_few"} THEN SetToSeq(IpaProgs)
+         ELSE IF Part \in {"ipa", "ipa_few"} THEN SetToSeq(IpaProgs \cup IpaHalfProgs)
          ELSE IF Part = "codec" THEN SetToSeq(ReadProgs \cup WriteProgs)
          ELSE MpProgs \o SetToSeq(IpaProgs) \o SetToSeq(ReadProgs \cup WriteProgs)
 VARIABLE done
